@@ -196,6 +196,31 @@ Proof.
 Qed.
 Print Assumptions C06_SO3_inverse.
 
+(* the MULTI-valued branch of inv() (its own code path): for a two-valued pose, value k of X.inv(), applied to a point,
+   is the structured inverse [R_k' , -R_k' t_k] of value k applied to it -- hence undoes value k *)
+Theorem C06_multi_inverse_SE3 : forall (X0 X1 : M44 R) (v : V3 R), hom4 X0 -> hom4 X1 ->
+  tr_SE3_minv2_c0 Rops X0 X1 v = act3 (trinv_ref X0) v /\ tr_SE3_minv2_c1 Rops X0 X1 v = act3 (trinv_ref X1) v.
+Proof. intros X0 X1 v H0 H1. split; revert H0 H1; unfold trinv_ref; gen_field. Qed.
+Print Assumptions C06_multi_inverse_SE3.
+
+Theorem C06_multi_inverse_undoes_SE3 : forall (X0 X1 : M44 R) (p : V3 R), SE3 X0 -> SE3 X1 ->
+  tr_SE3_minv2_c0 Rops X0 X1 (tr_SE3_v Rops X0 p) = p /\ tr_SE3_minv2_c1 Rops X0 X1 (tr_SE3_v Rops X1 p) = p.
+Proof.
+  intros X0 X1 p H0 H1. pose proof (SE3_hom _ H0) as h0. pose proof (SE3_hom _ H1) as h1.
+  destruct (C06_multi_inverse_SE3 X0 X1 (tr_SE3_v Rops X0 p) h0 h1) as [-> _].
+  destruct (C06_multi_inverse_SE3 X0 X1 (tr_SE3_v Rops X1 p) h0 h1) as [_ ->].
+  rewrite (C06_SE3_point _ _ h0), (C06_SE3_point _ _ h1). split; apply act3_inverse; assumption.
+Qed.
+Print Assumptions C06_multi_inverse_undoes_SE3.
+
+Theorem C06_multi_inverse_SO : forall (X0 X1 : M33 R) (Y0 Y1 : M22 R) (v : V3 R) (w : V2 R),
+  tr_SO3_minv2_c0 Rops X0 X1 v = tr_SO3_invv Rops X0 v /\ tr_SO3_minv2_c1 Rops X0 X1 v = tr_SO3_invv Rops X1 v /\
+  tr_SO3_minv2_c0 Rops X0 X1 v = mv33 Rops (mtr33 X0) v /\
+  tr_SO2_minv2_c0 Rops Y0 Y1 w = tr_SO2_invv Rops Y0 w /\ tr_SO2_minv2_c1 Rops Y0 Y1 w = tr_SO2_invv Rops Y1 w /\
+  tr_SO2_minv2_c0 Rops Y0 Y1 w = mv22 Rops (mtr22 Y0) w.
+Proof. intros; repeat split; gen_ring. Qed.
+Print Assumptions C06_multi_inverse_SO.
+
 Definition trinv2_ref (A : M33 R) : M33 R :=
   rt2tr2 Rops (mtr22 (t2r2 A)) (vneg2 Rops (mv22 Rops (mtr22 (t2r2 A)) (transl2 A))).
 
